@@ -234,13 +234,13 @@ pub fn oracle_r(_ctx: &RunCtx, gp: &GenPoint, log: &mut CaseLog) -> Result<(), S
     // the compressed forms HANDED TO THE TRANSCRIPT are the encodings of the same points: observe what prover and verifier
     // absorb for H and G (small parameter sets; one commitment)
     if bits * cap <= 64 {
-        use crate::tapx::{tapped, Event};
+        use crate::tapx::{tapped, tapped_prover, Event};
         use tari_bulletproofs_plus::{commitment_opening::CommitmentOpening, range_proof::{RangeProof, VerifyAction}, range_statement::RangeStatement, range_witness::RangeWitness};
         let r: Vec<Scalar> = (0..ext).map(|k| Scalar::from(k as u64 + 3)).collect();
         let c = p.pc_gens().commit(&Scalar::ONE, &r).map_err(crate::runner::skip_err)?;
         let st = RangeStatement::init(p.clone(), vec![c], vec![None], None).map_err(crate::runner::skip_err)?;
         let w = RangeWitness::init(vec![CommitmentOpening::new(1, r)]).map_err(crate::runner::skip_err)?;
-        let (proof, pev) = tapped(|| guarded(|| RangeProof::prove_with_rng(&mut merlin::Transcript::new(b"c11"), &st, &w, &mut crate::eng::RngSpec::ChaCha(gp.bulk).make())));
+        let (proof, pev) = tapped_prover(|| guarded(|| RangeProof::prove_with_rng(&mut merlin::Transcript::new(b"c11"), &st, &w, &mut crate::eng::RngSpec::ChaCha(gp.bulk).make())));
         let proof = proof?.map_err(crate::runner::skip_err)?;
         let (res, vev) = tapped(|| guarded(|| RangeProof::verify_batch(&mut [merlin::Transcript::new(b"c11")], &[st.clone()], &[proof.clone()], VerifyAction::VerifyOnly)));
         res?.map_err(crate::runner::skip_err)?;
